@@ -25,7 +25,10 @@ import (
 	vjson "encoding/json"
 	vfmt "fmt"
 	vos "os"
+	vdebug "runtime/debug"
 	vstrconv "strconv"
+	vsyscall "syscall"
+	vunsafe "unsafe"
 )
 
 type vVecBuf struct {
@@ -95,9 +98,26 @@ func vBytes(name string, max int, slack int) []byte {
 		return make([]byte, 0, slack)
 	}
 	raw, _ := vhex.DecodeString(b.Hex)
-	buf := make([]byte, b.Cap)
-	copy(buf, raw)
-	return buf[:b.Len]
+	if slack == 0 {
+		buf := make([]byte, b.Len)
+		copy(buf, raw)
+		return buf
+	}
+	// The bytes between len and cap do not belong to the data. They are placed in an inaccessible
+	// guard page so that a read through spare capacity (which Go does not trap) faults natively.
+	page := vos.Getpagesize()
+	dataPages := (b.Len+page-1)/page + 1
+	guardPages := (b.Cap-b.Len+page-1)/page + 1
+	mem, err := vsyscall.Mmap(-1, 0, (dataPages+guardPages)*page, vsyscall.PROT_READ|vsyscall.PROT_WRITE, vsyscall.MAP_ANON|vsyscall.MAP_PRIVATE)
+	if err != nil {
+		panic(err)
+	}
+	if err := vsyscall.Mprotect(mem[dataPages*page:], vsyscall.PROT_NONE); err != nil {
+		panic(err)
+	}
+	start := dataPages*page - b.Len
+	copy(mem[start:start+b.Len], raw)
+	return vunsafe.Slice(&mem[start], b.Cap)[:b.Len]
 }
 func vAssume(c bool) {
 	if !c {
@@ -119,6 +139,7 @@ func vRunHarness(fns map[string]func()) {
 		vfmt.Println("VERIF-OUTCOME error no-such-entry")
 		return
 	}
+	vdebug.SetPanicOnFault(true)
 	defer func() {
 		if r := recover(); r != nil {
 			switch x := r.(type) {
@@ -515,7 +536,7 @@ func cmdCheck(args []string) {
 			case "unwind":
 				confirmed = no.Kind == "timeout"
 			case "poison":
-				confirmed = false
+				confirmed = no.Kind == "panic" && (strings.Contains(no.Detail, "fault") || strings.Contains(no.Detail, "invalid memory address"))
 			}
 			if !confirmed {
 				rep.Problems = append(rep.Problems, fmt.Sprintf("UNCONFIRMED %s (%s at %s): native outcome %s %s", v.Kind, v.What, v.Pos, no.Kind, no.Detail))
